@@ -162,6 +162,45 @@ def main():
                 return t_, jar_
             before_c = contents(setify(tr['from']))
             done_c = contents(setify(tr['to']))
+            if ti % 3 == 0:
+                # read-only calls on the stored, evicted tree: every load on their way fails once - MemoryError or the right
+                # answer, the tree untouched, and (what the process would not survive) no node released twice
+                ks0 = before_c[0]
+                hi_ = emb.key(ks0[-1]) if ks0 else None
+                queries = [('keys(excludemax)', lambda t_: [emb.rk(x) for x in t_.keys(excludemax=True)], ks0[:-1]),
+                           ('keys(excludemin)', lambda t_: [emb.rk(x) for x in t_.keys(excludemin=True)], ks0[1:]),
+                           ('keys(max=largest,excludemax)', lambda t_: [emb.rk(x) for x in t_.keys(max=hi_, excludemax=True)], ks0[:-1]),
+                           ('len', lambda t_: len(t_), len(ks0)),
+                           ('maxKey', lambda t_: emb.rk(t_.maxKey()), ks0[-1] if ks0 else None),
+                           ('iter', lambda t_: [emb.rk(x) for x in t_], ks0)]
+                for qname, qf, qwant in queries:
+                    if not ks0:
+                        continue
+                    t, jar = stored()
+                    arm(0)
+                    got_ = []
+                    out0 = guarded(lambda: got_.append(qf(t)))
+                    nq = last_allocs[0]
+                    if out0 != 'ok' or got_[0] != qwant:
+                        mism.append(dict(fam=fam, is_set=is_set, sizes=[job['leaf'], job['internal']], act=tr['act'], op='stored ' + qname, kind='wrong-answer-without-fault', real=[out0, got_[:1]]))
+                        continue
+                    del t, jar
+                    for n in range(1, min(nq, 30) + 1):
+                        t, jar = stored()
+                        arm(n)
+                        got_ = []
+                        out = guarded(lambda: got_.append(qf(t)))
+                        counts['stored_query_faults'] = counts.get('stored_query_faults', 0) + 1
+                        wq = dict(fam=fam, is_set=is_set, sizes=[job['leaf'], job['internal']], act=tr['act'], op='stored ' + qname, fail_at=n, allocations=nq)
+                        if out != 'MemoryError' and not (out == 'ok' and got_[0] == qwant):
+                            mism.append(dict(wq, kind='no-MemoryError', real=[out, got_[:1]]))
+                        try:
+                            if contents(P.proj(t, emb, is_set)) != before_c or check(t) != 'ok':
+                                mism.append(dict(wq, kind='changed-by-a-failed-read', real=check(t)))
+                        except Exception as e:
+                            mism.append(dict(wq, kind='unreadable-after-fault', real=repr(e)[:100]))
+                        jar.cache.minimize()
+                        del t, jar
             t, jar = stored()
             arm(0)
             out0 = guarded(lambda: apply(t, emb, tr['act'], 0))
